@@ -333,6 +333,18 @@ class Interp:
                 continue
             if isinstance(f, FuncVal) and f.defining_class is None:
                 f.defining_class = cls
+        # hooks Python runs when a class is created
+        for nm, v in ns.items():
+            if isinstance(v, Obj) and v.cls.lookup("__set_name__") is not None:
+                raise Unsupported("descriptor with __set_name__")
+        for base in cls.mro[1:]:
+            if isinstance(base, ClassVal) and "__init_subclass__" in base.ns:
+                hook = base.ns["__init_subclass__"]
+                hook = hook.func if isinstance(hook, ClassMethodVal) else hook       # implicitly a classmethod
+                if not isinstance(hook, FuncVal):
+                    raise Unsupported("__init_subclass__ of an unusual kind")
+                self.call_function(hook, [cls], {})
+                break
         val = cls
         for d in reversed(node.decorator_list):
             dec = self.eval(d, frame)
